@@ -453,7 +453,7 @@ read_file(econf_file *ef, const char *file,
       }
     }
 
-    if (!*buf)
+    if (!*name)
       continue; /* result is empty line */
 
     /* check for groups */
